@@ -16,6 +16,7 @@ import (
 	"github.com/boz/kcache/filter"
 	"github.com/boz/kcache/nsname"
 	metav1 "k8s.io/apimachinery/pkg/apis/meta/v1"
+	"k8s.io/apimachinery/pkg/types"
 
 	"verif/explore"
 	"verif/harness/c03"
@@ -41,8 +42,12 @@ func (o obj) numeric() bool { return o.ver < nNumeric }
 func (o obj) String() string {
 	return fmt.Sprintf("%s@%s{l=%s}", keys[o.key], vers[o.ver], labels[o.label])
 }
+// real builds the API object.  Its UID follows the label, so that "same key, other content" also is "same name,
+// other UID" (an object deleted and re-created under its name): the cache keys by namespace/name only.
 func (o obj) real() metav1.Object {
-	return hx.Pod("ns", keys[o.key], vers[o.ver], "l="+labels[o.label])
+	p := hx.Pod("ns", keys[o.key], vers[o.ver], "l="+labels[o.label])
+	p.UID = types.UID("uid-" + labels[o.label])
+	return p
 }
 
 func allObjs() []obj {
@@ -759,9 +764,10 @@ func Property(id string) runner.Property {
 			}
 			if id == "C02" {
 				// public path: the controller and its publishers distribute exactly those events (deviation-bounded)
-				out = append(out, c03.C02Controller(tier)...)
 				// filtered subscriptions: replaying their events over the content read at readiness gives their cache
+				// (cheap; before the controller scenarios so that those inherit the unused share of the time budget)
 				out = append(out, c06.C02FilterScenarios(tier)...)
+				out = append(out, c03.C02Controller(tier)...)
 			}
 			return out
 		},
